@@ -67,6 +67,8 @@ pub fn run(ctx: &Ctx, rep: &mut Report) {
     if ctx.thorough() {
         sizes.extend([1022, 1024, 1026, 4094]);
     }
+    // big shards (values that do not fit 16 bits, odd block counts, short tails) on a few configurations
+    let big_sizes: Vec<usize> = if ctx.thorough() { vec![4096, 4098, 8190, 32768, 65534, 65536, 65538, 131072 + 66, 262144 + 2] } else { vec![1022, 1024, 4098, 65534, 65536, 65538, 131072 + 66] };
     let mut cfgs: Vec<(usize, usize)> = Vec::new();
     for k in 1..=kmax {
         for r in 1..=kmax {
@@ -91,6 +93,31 @@ pub fn run(ctx: &Ctx, rep: &mut Report) {
             }
         }
     }
+    for &eng in &engines_fast() {
+        for (ci, codec) in ["high", "low", "def"].into_iter().enumerate() {
+            for (gi, &(k, r)) in [(1usize, 1usize), (2, 3), (3, 2), (5, 5), (9, 4), (4, 9)].iter().enumerate() {
+                for (bi, &b) in big_sizes.iter().enumerate() {
+                    if !ctx.thorough() && (ci + gi + bi) % 2 != 0 {
+                        continue;
+                    }
+                    cases.push(Kv::new().with("eng", eng).with("codec", codec).with("k", k).with("r", r).with("bytes", b).with("soil", soil).with("seed", seed));
+                }
+            }
+        }
+    }
+    // API layers with several MiB of data in one call
+    for codec in ["oneshot", "rs", "def"] {
+        for &(k, r) in &[(3usize, 2usize), (5, 5)] {
+            for b in [1usize << 20, (1 << 20) + 66, (1 << 20) + 4098] {
+                if !ctx.thorough() && b == (1 << 20) + 66 && k == 5 {
+                    continue;
+                }
+                cases.push(Kv::new().with("eng", "default").with("codec", codec).with("k", k).with("r", r).with("bytes", b).with("soil", 0).with("seed", seed));
+            }
+        }
+    }
+    rep.bound("huge_calls", J::s("(3,2) and (5,5) with shards of 1 MiB, 1 MiB+66, 1 MiB+4098 through one-shot, ReedSolomon* and DefaultRate<DefaultEngine>"));
+    rep.bound("big_sizes", J::s(format!("{big_sizes:?} x 6 configurations x {{high,low,def}} x {:?}{}", engines_fast(), if ctx.thorough() { "" } else { " (every second combination)" })));
     rep.bound("sizes", J::s(format!("every even size 2..={smax}{}", if ctx.thorough() { " and 1022,1024,1026,4094" } else { "" })));
     rep.bound("cfg", J::s(format!("[1..{kmax}]^2{} x codecs x all engines", if ctx.thorough() { " + (33,3) (3,33)" } else { "" })));
     let results: Vec<Result<u64, (String, String)>> = par_for(cases.len(), 8, |i| match guard(|| run_case(&refm, &cases[i])) {
